@@ -43,7 +43,8 @@ def main():
             "engine": "rtmon",
             "level_claimed": {
                 "category": "exploration",
-                "text": meta.get("LEVEL_TEXT", "runtime monitoring of generated executions against a reference model; held = held on the executions listed in the evidence"),
+                "text": meta.get("LEVEL_TEXT", "runtime monitoring of generated executions against a reference model; held = held on the executions listed in the evidence")
+                        + " Every case also runs under the process-level monitors of rtmon/shard.py (floating-point-event tap, per-case watchdog; odd shards use the library's other classes first); receivers, argument carriers, size strata and histories as inventoried in DESIGN.md section 0.",
                 "design_ref": meta.get("DESIGN_REF", "DESIGN.md section 5, " + pid),
             },
             "level_note": meta.get("LEVEL_NOTE", "trusts numpy, CPython's copy.copy and slice semantics, and the reference model in rtmon/props/%s.py" % pid.lower()),
@@ -62,7 +63,7 @@ def main():
         "engines": [{
             "name": "rtmon", "path": "/verif/rtmon",
             "serves_properties": [c["property_id"] for c in checks],
-            "kind_free_text": "runtime monitoring: seeded hostile workloads executed against the real library, reference-model oracles at the API boundary, icontract post-conditions/invariants at quiescent points, sys.monitoring line coverage of the anchored mechanisms, offline checker over per-shard event logs",
+            "kind_free_text": "runtime monitoring: seeded hostile workloads executed against the real library, reference-model oracles at the API boundary, icontract post-conditions/invariants at quiescent points, sys.monitoring line coverage of the anchored mechanisms, numpy error-mode 'call' tap attributing floating-point events to library or oracle frames, process-global state monitor, offline checker over per-shard event logs",
         }],
         "checks": checks,
         "notes": "Every check: exit 0 = held on everything explored, exit 1 + 'VIOLATION property=<id> replay=<path>' = unlisted violation, exit 2 + 'INCONCLUSIVE ...' = a coverage floor was not met or a shard failed (never produced on the unchanged tree). Known findings: /verif/known_findings.json. Seeded defects used to test the monitors: /verif/seeded/.",
